@@ -24,7 +24,7 @@ def owner_of(q, tags, fn_owner):
     """(function, tag) ownership of DESIGN.md section 1: on the modelcheck call graphs the
     `frame` obligations belong to C07 and the `safety` obligations to C19"""
     from ..pyvc import run
-    if q in run.FUNCTIONS.get('ctl', []):
+    if any(q in run.FUNCTIONS.get(g, []) for g in ('ctl', 'ctls', 'ltl')):
         if 'frame' in tags:
             return 'C07'
         if 'safety' in tags:
